@@ -11,6 +11,7 @@ from .. import lang, vcrun, rx2smt as R
 from ..common import native, SEED
 from specs.build import B
 from ._groups import EXC
+from . import _b1
 
 LEVEL = "exploration"
 DIGITS = "0123456789abcdef"
@@ -93,6 +94,9 @@ def run(rep, tier):
     # length 2, their contents arbitrary)
     E = "pregex.meta.essentials."
     vcrun.run_functions(rep, [E + c + ".__init__" for c in ("Numeral", "Word", "WordContains", "WordStartsWith", "WordEndsWith")] + EXC, tier)
+    # the chain clauses above rest on the combinators' contracts, which assume the class invariant (contract of __infer_type):
+    # its stand-in runs here too (an affix / sign / format text that is mistyped breaks the composition)
+    _b1.run(rep, tier, ["category", "total"], "syntactic category of every emitted text (the meta patterns are compositions)")
     rep.assumptions.append("validation VCs: list arguments (infix / prefix / suffix) are enumerated up to length 2 with arbitrary "
                            "contents; longer lists rest on the per-element loop being uniform")
     rep.trusted += ["R3, R4, R6, R7", "rx2smt translator (cross-checked against CPython each run)",
